@@ -215,7 +215,7 @@ def generate(rng, tier, prop):
     for _ in range(rng.randint(1, 2)):
         enc = rng.choice(ENCODINGS)
         kn = docgen.draw_knobs(rng, tier, enc)
-        kn.update({"nblocks": rng.choice([1, 2, 3, 5]), "collide": rng.random() < 0.2, "names": False})
+        kn.update({"nblocks": rng.choice([1, 2, 3, 5]) if rng.random() > (0.04 if tier == "quick" else 0.1) else rng.choice([40, 120, 400]), "collide": rng.random() < 0.2, "names": False})
         d = docgen.make_doc(rng, kn)
         try:
             d["text"].encode(enc)
